@@ -4,6 +4,8 @@ import (
 	"bytes"
 	"fmt"
 	"math"
+	"os"
+	"path/filepath"
 	"reflect"
 	"strconv"
 	"strings"
@@ -428,6 +430,30 @@ func c12Run(c *Ctx) {
 	}
 	text := buf.String()
 	c.Count("ini_bytes_written", int64(len(text)))
+	if c.K%11 == 6 && c.W.Tier != "race" {
+		// the file route: WriteFile over an existing, longer file must leave exactly what Write produces, and
+		// ParseFile must read it like Parse reads the text
+		path := filepath.Join(os.TempDir(), fmt.Sprintf("vh-c12-%d-%d.ini", os.Getpid(), c.K))
+		c.Defer(func() { os.Remove(path) })
+		stale := text + "\n; left over from an earlier, longer version of the file\n" + strings.Repeat("; padding\n", r.Range(1, 40)) + "zz_stale_option = 1\n"
+		if err := os.WriteFile(path, []byte(stale), 0600); err == nil {
+			var werr error
+			if pi := safely(func() { werr = flags.NewIniParser(a.P).WriteFile(path, wopts) }); pi != nil {
+				c.Violate("panic:write-file", "IniParser.WriteFile panicked: %s", pi.Value)
+				return
+			}
+			got, rerr := os.ReadFile(path)
+			if werr != nil || rerr != nil {
+				c.Violate("write-file:error", "WriteFile/ReadFile failed: %v / %v", werr, rerr)
+				return
+			}
+			if string(got) != text {
+				c.Violate("write-file:content", "WriteFile over an existing file of %d bytes left %d bytes, Write produces %d bytes; common prefix %d bytes; tail %q", len(stale), len(got), len(text), commonPrefix(string(got), text), clip(string(got[minInt(len(got), len(text)):]), 120))
+				return
+			}
+			c.Count("files_written", 1)
+		}
+	}
 	c.Case(func() interface{} {
 		vals := map[string]string{}
 		for o, v := range chosen {
@@ -516,4 +542,12 @@ func init() {
 		LevelNote:   "Trusted: the canonical value rendering and the judgement of which options the writer may skip.",
 		DesignRef:   "§4 C12",
 	})
+}
+
+func commonPrefix(a, b string) int {
+	i := 0
+	for i < len(a) && i < len(b) && a[i] == b[i] {
+		i++
+	}
+	return i
 }
